@@ -166,8 +166,9 @@ def judge(obs, S=1.0):
     return fails
 
 
-def h2_scenario(backend, G=1.0):
-    """An open HTTP/2 stream at the trigger: it completes; a new stream after the trigger is refused; GOAWAY follows."""
+def h2_scenario(backend, G=2.0):
+    """Two open HTTP/2 streams at the trigger, one ending before the other: both complete (the end of the first must not
+    take the connection away from the second); a new stream after the trigger is refused; GOAWAY follows."""
     import h2.config
     import h2.connection
     import h2.events
@@ -185,15 +186,16 @@ def h2_scenario(backend, G=1.0):
             m = await receive()
             if m["type"] != "http.request" or not m.get("more_body"):
                 break
-        if scope["path"] == "/slow":
+        delay = {"/slow": 0.5, "/slower": 0.9}.get(scope["path"])
+        if delay:
             if sniffio.current_async_library() == "trio":
                 import trio
 
-                await trio.sleep(0.5)
+                await trio.sleep(delay)
             else:
                 import asyncio
 
-                await asyncio.sleep(0.5)
+                await asyncio.sleep(delay)
         await send({"type": "http.response.start", "status": 200, "headers": []})
         await send({"type": "http.response.body", "body": b"done:" + scope["path"].encode()})
 
@@ -206,12 +208,13 @@ def h2_scenario(backend, G=1.0):
     c = h2.connection.H2Connection(h2.config.H2Configuration(client_side=True, header_encoding=None))
     c.initiate_connection()
     c.send_headers(1, [(b":method", b"GET"), (b":path", b"/slow"), (b":scheme", b"http"), (b":authority", b"x")], end_stream=True)
+    c.send_headers(3, [(b":method", b"GET"), (b":path", b"/slower"), (b":scheme", b"http"), (b":authority", b"x")], end_stream=True)
     s.sendall(c.data_to_send())
     time.sleep(0.2)
     sv.trigger.set()
     time.sleep(0.1)
     try:
-        c.send_headers(3, [(b":method", b"GET"), (b":path", b"/new"), (b":scheme", b"http"), (b":authority", b"x")], end_stream=True)
+        c.send_headers(5, [(b":method", b"GET"), (b":path", b"/new"), (b":scheme", b"http"), (b":authority", b"x")], end_stream=True)
         s.sendall(c.data_to_send())
     except OSError:
         obs["events"].append(("send-failed",))
@@ -252,9 +255,9 @@ def judge_h2(obs):
     if obs.get("error"):
         return [{"signature": "harness:" + obs["error"], "backend": obs["backend"]}]
     evs = obs["events"]
-    if obs["data"].get(1) != b"done:/slow" or ("end", 1) not in evs:
+    if obs["data"].get(1) != b"done:/slow" or ("end", 1) not in evs or obs["data"].get(3) != b"done:/slower" or ("end", 3) not in evs:
         fails.append({"signature": "h2-in-flight-stream-not-completed", "backend": obs["backend"], "events": evs, "data": repr(obs["data"])})
-    if ("response", 3) in evs:
+    if ("response", 5) in evs:
         fails.append({"signature": "h2-new-stream-served-after-shutdown-began", "backend": obs["backend"], "events": evs})
     if ("goaway",) not in evs and ("eof",) not in evs:
         fails.append({"signature": "h2-peer-not-told-to-go-away", "backend": obs["backend"], "events": evs})
